@@ -510,9 +510,9 @@ def run(ctx):
     for f in sorted(cdir.glob('*.json')) if cdir.is_dir() else []:
         replay(ctx, json.loads(f.read_text()), from_corpus=True)
     quick = ctx.tier == 'quick'
-    n_unit = 150 if quick else 1500
+    n_unit = 150 if quick else 2000
     n_mal = 25 if quick else 150
-    n_pipe = 50 if quick else 400
+    n_pipe = 50 if quick else 700
     for i in range(n_unit):
         check_unit(ctx, gen_unit(rng, i))
     for i in range(n_mal):
